@@ -241,6 +241,25 @@ partial def runOp (hin hout : IO.FS.Stream) (j : Json) : IO Json := do
   | "parse_auth_data" => do
     let b ← liftP (bytesField j "b")
     pure (outcomeToJson authDataToJson (parseAuthData b))
+  | "encode_auth_data" => do
+    let rp ← liftP (bytesField j "rp")
+    let fb ← liftP (natField j "flags")
+    let ctr ← liftP (natField j "counter")
+    let aaguid ← liftP (optField bytesOfJson j "aaguid")
+    let cid ← liftP (optField bytesOfJson j "cred_id")
+    let key ← liftP (optField bytesOfJson j "key")
+    let ext ← liftP (optField bytesOfJson j "ext")
+    let att : Except Err (Option (Bytes × Bytes × Cbor)) := match aaguid, cid, key with
+      | some a, some i, some k => (parseCbor k).map (fun v => some (a, i, v))
+      | _, _, _ => .ok none
+    let extv : Except Err (Option Cbor) := match ext with
+      | some e => (parseCbor e).map some
+      | none => .ok none
+    let out : Except Err Bytes := do
+      let a ← att
+      let e ← extv
+      pure (encodeAuthData rp fb.toUInt8 ctr a e)
+    pure (outcomeToJson (fun b => Json.str (hexStr b)) out)
   | "parse_backup_flags" => do
     let f ← liftP (natField j "flags")
     pure (outcomeToJson (fun (r : String × Bool) => Json.mkObj [("device_type", r.1), ("backed_up", r.2)])
